@@ -12,13 +12,16 @@ use crate::common::{arg_value, guarded, Report, Scratch, Slice};
 const DIRS: &[&str] = &["a", "b", "a.b", "x.ts", "ts", ".hid", ".", ".."];
 const FILES: &[&str] = &["A.ts", "b.c.ts", "x.ts.ts", "ts.ts", ".h.ts", "Ats"];
 
-fn rel_paths(depth: usize) -> Vec<String> {
+/// sub-alphabet for the deeper pass: one plain name, one `.ts`-suffixed name, `.` and `..`
+const DIRS_SMALL: &[&str] = &["a", "x.ts", ".", ".."];
+
+fn rel_paths(depth: usize, alphabet: &[&str]) -> Vec<String> {
     let mut dirs: Vec<String> = vec![String::new()];
     let mut frontier = vec![String::new()];
     for _ in 0..depth {
         let mut next = vec![];
         for d in &frontier {
-            for c in DIRS {
+            for c in alphabet {
                 next.push(format!("{d}{c}/"));
             }
         }
@@ -53,7 +56,8 @@ pub fn run(args: &[String]) {
     let mut rep = Report::new("paths");
     let mut scratch = Scratch::new("paths");
     let root = scratch.fresh();
-    let paths = rel_paths(depth);
+    let alphabet = if args.iter().any(|a| a == "--small-dirs") { DIRS_SMALL } else { DIRS };
+    let paths = rel_paths(depth, alphabet);
     let all_bases = ["./bindings", "/abs/dir", "./x/../y", "/b", "rel/dir", "bindings/", "/"];
     let bases: &[&str] = if args.iter().any(|a| a == "--fewer-bases") { &all_bases[..4] } else { &all_bases[..] };
     let cwds = ["c1", "c1/c2/c3"];
